@@ -218,7 +218,6 @@ def check_case(case, ctx):
         fraction = 1.0  # the fraction is only meaningful for an optimum that has the sign of the direction
     fva_kind = case["fva"]
     raw = None
-    fva_scale = 1.0
     if fva_kind == "none":
         fva_arg = None
     elif fva_kind == "float":
@@ -454,8 +453,8 @@ def hyp_phase(ctx):
 
 def phases(tier):
     if tier == "quick":
-        return [Phase("hyp", hyp_phase, shards=8, params={"max_examples": 200, "budget_s": 50})]
-    return [Phase("hyp", hyp_phase, shards=16, params={"max_examples": 1500, "budget_s": 500})]
+        return [Phase("hyp", hyp_phase, shards=8, params={"max_examples": 200, "budget_s": 55})]
+    return [Phase("hyp", hyp_phase, shards=16, params={"max_examples": 1200, "budget_s": 500})]
 
 
 CHECKS = {"summary": check_case}
